@@ -1,7 +1,8 @@
 (* C01: concrete domains.  (1) the hypotheses of the theorems are satisfiable by a non-trivial text;
-   (2) witnesses of the recorded deviations D45 (trailing untyped constants dropped) and D47 ('(f)' for a function
-   declared with parameters silently reads the declaration's own parameter), computed on the model and replayed
-   on the implementation by the check (findings.d/C01.json). *)
+   (2) the witnesses of the repaired deviations D45 (trailing untyped constants), D46 (repeated argument / wrong
+   arity), D47 ('(f)' for a function declared with parameters) now behave: kept, rejected, rejected;
+   (3) the one place where the stored object model is not the formula written - '(= 1 1.0)' over two numerals - and
+   the proof that such an action cannot be grounded (the library raises KeyError there). *)
 From Coq Require Import List Ascii String Bool Arith Lia PrimFloat.
 From Verif Require Import Base.Result Base.Str Base.Sexp Base.PyDict Model.Tokenizer Model.Types Model.Domain
   Model.Exec Spec.Pddl Spec.Grammar Spec.Faithful Proofs.C01_Defs Proofs.C01_Action Proofs.C01_Domain.
@@ -11,7 +12,8 @@ Open Scope list_scope.
 
 (* float(token) on the numerals used below *)
 Definition num_tab : numparser :=
-  fun s => lookup s [("0", 0%float); ("1", 1%float); ("2", 2%float); ("0.5", 0x1p-1%float); ("10", 10%float)].
+  fun s => lookup s [("0", 0%float); ("1", 1%float); ("1.0", 1%float); ("2", 2%float); ("0.5", 0x1p-1%float);
+                     ("10", 10%float)].
 
 Definition text_sexp (s : string) : sexp :=
   match parse_string MStr s with Ok e => e | Err _ => Atom "" end.
@@ -50,18 +52,12 @@ Proof. vm_compute. reflexivity. Qed.
 Example example_sections_once : sections_once example_sexp.
 Proof. vm_compute. repeat constructor. Qed.
 
-Example example_constants_typed : constants_all_typed example_sexp.
-Proof.
-  unfold constants_all_typed. vm_compute section_bodies.
-  intros body names [<-|[]] Hn. vm_compute in Hn. injection Hn as <-. reflexivity.
-Qed.
-
 Example example_hypotheses :
   match read_domain num_tab example_sexp with
   | Some sd =>
       names_not_keywords (map fst (sd_preds sd)) && names_not_keywords (map fst (sd_funcs sd)) &&
       negb (str_in ":private" (map fst (sd_preds sd))) &&
-      forallb (action_ok (vo_funcs (spec_vocabulary sd))) (sd_actions sd)
+      forallb action_ok (sd_actions sd)
   | None => false
   end = true.
 Proof. vm_compute. reflexivity. Qed.
@@ -74,127 +70,84 @@ Example example_types :
   end = [("truck", "vehicle"); ("vehicle", "thing"); ("place", "thing"); ("crate", "object"); ("thing", "object")].
 Proof. vm_compute. reflexivity. Qed.
 
-(* ---------- D45: trailing untyped constants are dropped ---------- *)
+(* ---------- D45 repaired: constants without a type are of type object ---------- *)
 Definition d45_text : string :=
   "(define (domain d) (:types a) (:constants c1 - a c2 c3) (:predicates (p ?x - a))
      (:action act :parameters (?x - a) :precondition (and (p ?x)) :effect (and (p c1))))".
 Definition d45_sexp : sexp := text_sexp d45_text.
 
-Lemma d45_witness :
-  exists m sd,
-    parse_domain num_tab d45_sexp = Ok m /\ read_domain num_tab d45_sexp = Some sd /\
-    sections_once d45_sexp /\ ~ In ":private" (map fst (sd_preds sd)) /\
-    vo_consts (model_vocabulary m) = [("c1", "a")] /\
-    vo_consts (spec_vocabulary sd) = [("c1", "a"); ("c2", "object"); ("c3", "object")].
-Proof.
-  destruct (parse_domain num_tab d45_sexp) as [m|] eqn:Em; [|vm_compute in Em; discriminate].
-  destruct (read_domain num_tab d45_sexp) as [sd|] eqn:Es; [|vm_compute in Es; discriminate].
-  exists m, sd. split; [reflexivity|]. split; [reflexivity|].
-  vm_compute in Em. injection Em as <-. vm_compute in Es. injection Es as <-.
-  split; [vm_compute; repeat constructor|]. split; [vm_compute; intuition discriminate|].
-  split; vm_compute; reflexivity.
-Qed.
+Example d45_repaired :
+  match parse_domain num_tab d45_sexp with Ok m => d_consts m | Err _ => [] end
+  = [("c1", "a"); ("c2", "object"); ("c3", "object")].
+Proof. vm_compute. reflexivity. Qed.
 
-(* ---------- D47: (f) for a unary f is read as (f ?x) ---------- *)
-Definition d47_text : string :=
-  "(define (domain d) (:types a) (:predicates (p ?x - a)) (:functions (f ?x - a))
-     (:action act :parameters (?x - a) :precondition (and (>= (f) 1)) :effect (and (p ?x))))".
-Definition d47_sexp : sexp := text_sexp d47_text.
+(* ---------- D46 / D07 repaired: a repeated argument, a wrong arity are rejected ---------- *)
+Definition d46_text (pre : string) : string :=
+  "(define (domain d) (:types a) (:constants k - a) (:predicates (p ?x - a) (r ?x - a ?y - a))
+     (:functions (f ?x - a))
+     (:action act :parameters (?x - a ?y - a) :precondition (and " ++ pre ++ ") :effect (and (p ?x))))".
 
-Definition d47_state : state := {| facts := []; fluents := [(("f", ["o1"]), 2%float)] |}.
+Example d46_repeated_rejected : is_ok (parse_domain num_tab (text_sexp (d46_text "(r ?x ?x)"))) = false.
+Proof. vm_compute. reflexivity. Qed.
+Example d46_function_arity_rejected : is_ok (parse_domain num_tab (text_sexp (d46_text "(>= (f ?x ?y) 1)"))) = false.
+Proof. vm_compute. reflexivity. Qed.
+(* a literal of the wrong arity is stored, and every grounding of the action raises *)
+Example d46_literal_arity_raises :
+  match parse_domain num_tab (text_sexp (d46_text "(p ?x ?y)")) with
+  | Ok m => match dget (d_actions m) "act" with
+            | Some ma => is_ok (ground_action m ma ["o1"; "o2"])
+            | None => true end
+  | Err _ => true
+  end = false.
+Proof. vm_compute. reflexivity. Qed.
 
-Lemma d47_witness :
+(* ---------- D47 repaired: (f) for a unary f is rejected ---------- *)
+Example d47_rejected : is_ok (parse_domain num_tab (text_sexp (d46_text "(>= (f) 1)"))) = false.
+Proof. vm_compute. reflexivity. Qed.
+
+(* ---------- '(= 1 1.0)': stored as an object equality over the names "1" and "1.0" ---------- *)
+Definition numpair_text : string :=
+  "(define (domain d) (:types a) (:predicates (p ?x - a))
+     (:action act :parameters (?x - a) :precondition (and (= 1 1.0)) :effect (and (p ?x))))".
+Definition numpair_sexp : sexp := text_sexp numpair_text.
+
+Lemma numpair_witness :
   exists m sd ma sa,
-    parse_domain num_tab d47_sexp = Ok m /\ read_domain num_tab d47_sexp = Some sd /\
-    dget (d_actions m) "act" = Some ma /\ sd_actions sd = [sa] /\
-    denote_pre (ma_pre ma) = Some (FAnd [FCmp CGe (NFl "f" ["?x"]) (NNum 1%float)]) /\
-    a_pre sa = FAnd [FCmp CGe (NFl "f" []) (NNum 1%float)] /\
-    (* no error anywhere: the action is grounded and evaluated, with the altered meaning *)
-    (exists ga, ground_action m ma ["o1"] = Ok ga /\
-                is_applicable m 0x1p-14%float (Some [("o1", "a")]) ga d47_state = Ok true) /\
-    applicable 0x1p-14%float (sd_types sd) [("o1", "a")] sa ["o1"] d47_state = false.
-Proof.
-  destruct (parse_domain num_tab d47_sexp) as [m|] eqn:Em; [|vm_compute in Em; discriminate].
-  destruct (read_domain num_tab d47_sexp) as [sd|] eqn:Es; [|vm_compute in Es; discriminate].
-  vm_compute in Em. injection Em as <-. vm_compute in Es. injection Es as <-.
-  do 4 eexists. split; [reflexivity|]. split; [reflexivity|]. split; [vm_compute; reflexivity|].
-  split; [reflexivity|]. split; [vm_compute; reflexivity|]. split; [reflexivity|].
-  split; [eexists; split; vm_compute; reflexivity|]. vm_compute. reflexivity.
-Qed.
-
-(* ---------- the full statements are false of the model (and of the library) ---------- *)
-Lemma vocabulary_refuted :
-  exists num e m sd,
-    parse_domain num e = Ok m /\ read_domain num e = Some sd /\ sections_once e /\
-    ~ In ":private" (map fst (sd_preds sd)) /\
-    model_vocabulary m <> spec_vocabulary sd.
-Proof.
-  destruct d45_witness as (m & sd & Hp & Hr & Ho & Hpriv & Hm & Hs).
-  exists num_tab, d45_sexp, m, sd. repeat split; try assumption.
-  intros H. apply (f_equal vo_consts) in H. rewrite Hm, Hs in H. discriminate H.
-Qed.
-
-Lemma faithful_refuted :
-  exists num e m sd ma sa,
-    parse_domain num e = Ok m /\ read_domain num e = Some sd /\ sections_once e /\
-    names_not_keywords (map fst (sd_preds sd)) = true /\ names_not_keywords (map fst (sd_funcs sd)) = true /\
-    ~ In ":private" (map fst (sd_preds sd)) /\
-    dget (d_actions m) (lower_string (a_name sa)) = Some ma /\ sd_actions sd = [sa] /\
+    parse_domain num_tab numpair_sexp = Ok m /\ read_domain num_tab numpair_sexp = Some sd /\
+    sections_once numpair_sexp /\ names_ok sd /\
+    sd_actions sd = [sa] /\ dget (d_actions m) (lower_string (a_name sa)) = Some ma /\
     ~ action_faithful ma sa /\
-    (* ... and nothing raises: grounding and evaluation go through *)
-    exists ga s objs, ground_action m ma ["o1"] = Ok ga /\ is_applicable m 0x1p-14%float (Some objs) ga s = Ok true.
+    (* ... but the action cannot be used: Operator.ground() raises for every call *)
+    forall args, exists k, ground_action m ma args = Err k.
 Proof.
-  destruct d47_witness as (m & sd & ma & sa & Hp & Hr & Hget & Hacts & Hden & Hpre & (ga & Hg & Happ) & Hspec).
-  exists num_tab, d47_sexp, m, sd, ma, sa.
-  assert (Hsd : sd = {| sd_types := [("a", "object")]; sd_consts := []; sd_preds := [("p", [("?x", "a")])];
-                        sd_funcs := [("f", [("?x", "a")])]; sd_actions := [sa] |}).
-  { vm_compute in Hr. injection Hr as <-. vm_compute in Hacts. injection Hacts as <-. reflexivity. }
-  split; [exact Hp|]. split; [exact Hr|]. split; [vm_compute; repeat constructor|].
-  rewrite Hsd. cbn [sd_preds sd_funcs sd_actions].
-  split; [reflexivity|]. split; [reflexivity|]. split; [simpl; intuition discriminate|].
-  assert (Hname : a_name sa = "act").
-  { rewrite Hsd in Hr. vm_compute in Hr. injection Hr as Hsa. rewrite <- Hsa. reflexivity. }
-  split; [rewrite Hname; exact Hget|]. split; [reflexivity|]. split.
-  - intros (_ & _ & (f' & Hf' & Hequiv) & _). rewrite Hden in Hf'. injection Hf' as <-. rewrite Hpre in Hequiv.
-    specialize (Hequiv 0x1p-14%float [] [] [("?x", "o1")] d47_state). vm_compute in Hequiv. discriminate Hequiv.
-  - exists ga, d47_state, [("o1", "a")]. split; assumption.
-Qed.
-
-Lemma vocabulary_statement_false : ~ vocabulary_statement.
-Proof.
-  intros H. destruct vocabulary_refuted as (num & e & m & sd & Hp & Hr & Ho & Hpriv & Hne).
-  apply Hne. exact (H num e m sd Hp Hr Ho Hpriv).
+  destruct (parse_domain num_tab numpair_sexp) as [m|] eqn:Em; [|vm_compute in Em; discriminate].
+  destruct (read_domain num_tab numpair_sexp) as [sd|] eqn:Es; [|vm_compute in Es; discriminate].
+  vm_compute in Em. injection Em as <-. vm_compute in Es. injection Es as <-.
+  do 4 eexists. split; [reflexivity|]. split; [reflexivity|]. split; [vm_compute; repeat constructor|].
+  split; [split; [reflexivity|split; [reflexivity|simpl; intuition discriminate]]|].
+  split; [reflexivity|]. split; [vm_compute; reflexivity|]. split.
+  - intros (_ & _ & (f' & Hf' & Hequiv) & _). vm_compute in Hf'. injection Hf' as <-.
+    specialize (Hequiv 0x1p-14%float [] [] [] {| facts := []; fluents := [] |}). vm_compute in Hequiv.
+    discriminate Hequiv.
+  - intros args. destruct args as [|a r]; eexists; vm_compute; reflexivity.
 Qed.
 
 Lemma faithful_statement_false : ~ faithful_statement.
 Proof.
   intros H.
-  destruct faithful_refuted as (num & e & m & sd & ma & sa & Hp & Hr & Ho & Hpk & Hfk & Hpriv & Hget & Hacts & Hnf & _).
-  destruct (H num e m sd _ ma Hp Hr Ho (conj Hpk (conj Hfk Hpriv)) Hget) as (sa' & Hin' & Hn & Hf).
+  destruct numpair_witness as (m & sd & ma & sa & Hp & Hr & Ho & Hok & Hacts & Hget & Hnf & _).
+  destruct (H num_tab numpair_sexp m sd _ ma Hp Hr Ho Hok Hget) as (sa' & Hin' & Hn & Hf).
   rewrite Hacts in Hin'. destruct Hin' as [<-|[]]. exact (Hnf Hf).
-Qed.
-
-Lemma faithful_refuted_silent :
-  exists num e m sd ma sa,
-    parse_domain num e = Ok m /\ read_domain num e = Some sd /\ sections_once e /\ names_ok sd /\
-    dget (d_actions m) (lower_string (a_name sa)) = Some ma /\ sd_actions sd = [sa] /\
-    ~ action_faithful ma sa /\
-    exists ga s objs, ground_action m ma ["o1"] = Ok ga /\ is_applicable m 0x1p-14%float (Some objs) ga s = Ok true.
-Proof.
-  destruct faithful_refuted as (num & e & m & sd & ma & sa & Hp & Hr & Ho & Hpk & Hfk & Hpriv & Hget & Hin & Hnf & Hs).
-  exists num, e, m, sd, ma, sa. repeat split; assumption.
 Qed.
 
 Lemma example_all :
   is_ok (parse_domain num_tab example_sexp) = true /\
-  sections_once example_sexp /\ constants_all_typed example_sexp /\
+  sections_once example_sexp /\
   match read_domain num_tab example_sexp with
   | Some sd =>
       names_not_keywords (map fst (sd_preds sd)) && names_not_keywords (map fst (sd_funcs sd)) &&
       negb (str_in ":private" (map fst (sd_preds sd))) &&
-      forallb (action_ok (vo_funcs (spec_vocabulary sd))) (sd_actions sd)
+      forallb action_ok (sd_actions sd)
   | None => false
   end = true.
-Proof.
-  exact (conj example_parses (conj example_sections_once (conj example_constants_typed example_hypotheses))).
-Qed.
+Proof. exact (conj example_parses (conj example_sections_once example_hypotheses)). Qed.
